@@ -2,7 +2,7 @@
 (run_impl(..., jit=False)) so that the @njit kernels are plain Python and visible to sys.settrace.
 
 payload: {"cases": [{"fn": name, "args": [...]}, ...]}
-result : {"files": [basename, ...], "lines": [[file_index * 10000000 + line key, ...] per case]}   ([] if the call raised)
+result : {"outs": [[d, p1.., p2..] floats of the (interpreted) call | null], "files": [basename, ...], "lines": [[file_index * 10000000 + line key, ...] per case]}   ([] if the call raised)
 The set of executed lines names the path through the branches of the implementation that the input takes; the harness
 selects the cases of a run so that rarely executed lines are covered several times on every run.
 """
@@ -46,23 +46,26 @@ def main():
 
     files = {}
     lines = []
+    outs = []
     for c in payload["cases"]:
         seen.clear()
         args = [to_arg(a) for a in c["args"]]
         f = getattr(D, c["fn"])
         sys.settrace(tracer)
         try:
-            f(*args)
+            res = f(*args)
             exc = None
+            outs.append([float(res[0])] + [float(x) for p_ in res[1:] for x in np.asarray(p_, dtype=float).reshape(-1)])
         except BaseException as e:  # noqa
             exc = type(e).__name__
         finally:
             sys.settrace(None)
         if exc:
+            outs.append(None)
             lines.append([-1])       # raised in the interpreted run: the harness always keeps such a case
         else:
             lines.append(sorted(files.setdefault(os.path.basename(a), len(files)) * 10000000 + b for a, b in seen))
-    json.dump(dict(files=sorted(files, key=files.get), lines=lines), open(sys.argv[2], "w"))
+    json.dump(dict(files=sorted(files, key=files.get), lines=lines, outs=outs), open(sys.argv[2], "w"))
 
 
 if __name__ == "__main__":
